@@ -188,3 +188,243 @@ Proof.
   inversion Hls as [|? ? Hl' _]; subst.
   destruct l' as [|v l']; [congruence|]. exact IH.
 Qed.
+
+(* ------------------------------------------------------------------ *)
+(** * (4) Iterating a level *)
+
+Lemma omap_all_In {A B} (f : A -> option B) : forall (l : list A) (r : list B),
+  omap_all f l = Some r -> forall y, In y r -> exists x, In x l /\ f x = Some y.
+Proof.
+  induction l as [|a l IH]; intros r H y Hy.
+  - cbn [omap_all] in H. injection H as <-. destruct Hy.
+  - apply omap_all_cons_inv in H. destruct H as (b & r' & Hb & Hr & ->).
+    destruct Hy as [<-|Hy].
+    + exists a. split; [left; reflexivity|exact Hb].
+    + destruct (IH r' Hr y Hy) as (x & Hx & Hfx). exists x. split; [right; exact Hx|exact Hfx].
+Qed.
+
+Lemma omap_all_In_fwd {A B} (f : A -> option B) : forall (l : list A) (r : list B),
+  omap_all f l = Some r -> forall x, In x l -> exists y, f x = Some y /\ In y r.
+Proof.
+  induction l as [|a l IH]; intros r H x Hx; [destruct Hx|].
+  apply omap_all_cons_inv in H. destruct H as (b & r' & Hb & Hr & ->).
+  destruct Hx as [<-|Hx].
+  - exists b. split; [exact Hb|left; reflexivity].
+  - destruct (IH r' Hr x Hx) as (y & Hy & Hin). exists y. split; [exact Hy|right; exact Hin].
+Qed.
+
+Lemma count_nat_app x : forall l1 l2,
+  count_nat x (l1 ++ l2) = (count_nat x l1 + count_nat x l2)%nat.
+Proof.
+  induction l1 as [|y l1 IH]; intros l2; cbn [app count_nat]; [reflexivity|].
+  rewrite IH. lia.
+Qed.
+
+Lemma pos_in_In b : forall ids k0 k, pos_in b ids k0 = Some k -> In b ids.
+Proof.
+  induction ids as [|i ids IH]; intros k0 k H; cbn [pos_in] in H; [discriminate|].
+  destruct (Nat.eqb_spec i b) as [E|E]; [left; exact E|].
+  right. eapply IH. exact H.
+Qed.
+
+(* [locate] names the file that holds the box, when the box is held once *)
+Lemma locate_name lv b : forall files n ids c,
+  (count_nat b (concat (map snd files)) <= 1)%nat ->
+  In (n, ids) files -> In b ids ->
+  locate lv files b = Some c -> fst c = n.
+Proof.
+  induction files as [|[n0 ids0] files IH]; intros n ids c Hc Hin Hb Hloc; [destruct Hin|].
+  cbn [map snd concat] in Hc. rewrite count_nat_app in Hc.
+  cbn [locate] in Hloc.
+  destruct (pos_in b ids0 0) as [k|] eqn:E.
+  - injection Hloc as <-. cbn [fst].
+    destruct Hin as [Hin|Hin]; [congruence|].
+    exfalso. apply pos_in_In in E. apply count_nat_in in E.
+    assert (Hb' : In b (concat (map snd files))).
+    { apply in_concat. exists ids. split; [|exact Hb].
+      apply (in_map snd) in Hin. exact Hin. }
+    apply count_nat_in in Hb'. lia.
+  - destruct Hin as [Hin|Hin].
+    + exfalso. injection Hin as -> ->.
+      destruct (pos_in_complete b ids 0%nat Hb) as [k Hk]. congruence.
+    + apply (IH n ids c); [lia|exact Hin|exact Hb|exact Hloc].
+Qed.
+
+Lemma wf_level_ids_nonempty lv : wf_level lv = true ->
+  forall n ids, In (n, ids) (lv_files lv) -> ids <> [].
+Proof.
+  unfold wf_level. intros H n ids Hin.
+  apply andb_true_iff in H. destruct H as [H _].
+  apply andb_true_iff in H. destruct H as [H _].
+  apply andb_true_iff in H. destruct H as [_ H3].
+  rewrite forallb_forall in H3.
+  apply (in_map snd) in Hin. apply H3 in Hin. cbn [snd] in Hin.
+  intros ->. cbn in Hin. discriminate.
+Qed.
+
+Lemma wf_level_fabs_ok lv : wf_level lv = true -> forallb fab_ok (lv_fabs lv) = true.
+Proof.
+  unfold wf_level. intros H.
+  apply andb_true_iff in H. destruct H as [H _].
+  apply andb_true_iff in H. destruct H as [H _].
+  apply andb_true_iff in H. destruct H as [H _].
+  apply andb_true_iff in H. destruct H as [H _]. exact H.
+Qed.
+
+Lemma distinct_names_NoDup : forall l, distinct_names l = true -> NoDup l.
+Proof.
+  induction l as [|x l IH]; intros H; constructor;
+    cbn [distinct_names] in H; apply andb_true_iff in H; destruct H as [Hx Hl].
+  - intros Hin. rewrite (existsb_bytes_eqb_in x l Hin) in Hx. discriminate.
+  - apply IH. exact Hl.
+Qed.
+
+Theorem level_names_perm : forall lv cells,
+  wf_level lv = true -> lv_cells lv = Some cells ->
+  Permutation (np_unique (map fst cells)) (map fst (lv_files lv)).
+Proof.
+  intros lv cells Hwf Hcells.
+  destruct (wf_level_parts lv Hwf) as (Hd & Hlt & Hcount).
+  apply NoDup_Permutation.
+  - apply np_unique_NoDup.
+  - apply distinct_names_NoDup. exact Hd.
+  - intros x. rewrite np_unique_In. unfold lv_cells in Hcells. split; intros H.
+    + apply in_map_iff in H. destruct H as (c & <- & Hc).
+      destruct (omap_all_In _ _ _ Hcells c Hc) as (b & _ & Hloc).
+      apply locate_in in Hloc. destruct Hloc as (ids & k & Hin & _).
+      apply (in_map fst) in Hin. exact Hin.
+    + apply in_map_iff in H. destruct H as ([n ids] & <- & Hin). cbn [fst].
+      pose proof (wf_level_ids_nonempty lv Hwf n ids Hin) as Hne.
+      destruct ids as [|b ids']; [congruence|].
+      assert (Hb : In b (concat (map snd (lv_files lv)))).
+      { apply in_concat. exists (b :: ids'). split; [|left; reflexivity].
+        apply (in_map snd) in Hin. exact Hin. }
+      pose proof (Hlt b Hb) as Hblt.
+      assert (Hseq : In b (seq 0 (length (lv_fabs lv)))) by (apply in_seq; lia).
+      destruct (omap_all_In_fwd _ _ _ Hcells b Hseq) as (c & Hloc & Hc).
+      apply in_map_iff. exists c. split; [|exact Hc].
+      apply (locate_name lv b (lv_files lv) n (b :: ids') c); auto.
+      * rewrite (Hcount b Hblt). lia.
+      * left; reflexivity.
+Qed.
+
+(* total version of the specified read *)
+Definition dummy_arr : arr := {| a_shape := []; a_data := [] |}.
+Definition spec_read_tot (a : farg) (fb : fab) : arr :=
+  match spec_read fb a with Some r => r | None => dummy_arr end.
+
+Lemma omap_all_tot {A B} (f : A -> option B) (d : B) : forall (l : list A) (r : list B),
+  omap_all f l = Some r ->
+  r = map (fun x => match f x with Some y => y | None => d end) l
+  /\ forall x, In x l -> f x = Some (match f x with Some y => y | None => d end).
+Proof.
+  induction l as [|a l IH]; intros r H.
+  - cbn [omap_all] in H. injection H as <-. split; [reflexivity|intros x []].
+  - apply omap_all_cons_inv in H. destruct H as (b & r' & Hb & Hr & ->).
+    destruct (IH r' Hr) as [-> Hall]. split.
+    + cbn [map]. rewrite Hb. reflexivity.
+    + intros x [<-|Hx]; [rewrite Hb; reflexivity|apply Hall; exact Hx].
+Qed.
+
+Lemma file_fabs_In lv n ids fb : wf_level lv = true ->
+  In (n, ids) (lv_files lv) -> In fb (file_fabs lv ids) -> In fb (lv_fabs lv).
+Proof.
+  intros Hwf Hin Hfb.
+  destruct (wf_level_parts lv Hwf) as (_ & Hlt & _).
+  unfold file_fabs in Hfb. apply in_map_iff in Hfb. destruct Hfb as (i & <- & Hi).
+  apply nth_In. apply Hlt. apply in_concat. exists ids. split; [|exact Hi].
+  apply (in_map snd) in Hin. exact Hin.
+Qed.
+
+Lemma forallb_sub {A} (p : A -> bool) (l l' : list A) :
+  forallb p l = true -> (forall x, In x l' -> In x l) -> forallb p l' = true.
+Proof.
+  intros H Hsub. rewrite forallb_forall in *. intros x Hx. apply H, Hsub, Hx.
+Qed.
+
+Lemma per_file_reads_tot lv a rs n ids :
+  wf_level lv = true -> In (n, ids) (lv_files lv) ->
+  omap_all (fun fb => spec_read fb a) (lv_fabs lv) = Some rs ->
+  omap_all (fun fb => spec_read fb a) (file_fabs lv ids) = Some (map (spec_read_tot a) (file_fabs lv ids))
+  /\ read_bfile (encode_file (file_fabs lv ids)) a = map (spec_read_tot a) (file_fabs lv ids)
+  /\ map (spec_read_tot a) (file_fabs lv ids) <> [].
+Proof.
+  intros Hwf Hin Hrs.
+  destruct (omap_all_tot _ dummy_arr _ _ Hrs) as [_ Hall].
+  assert (Hsub : forall fb, In fb (file_fabs lv ids) -> In fb (lv_fabs lv))
+    by (intros fb; apply (file_fabs_In lv n ids fb Hwf Hin)).
+  assert (Hom : omap_all (fun fb => spec_read fb a) (file_fabs lv ids)
+                = Some (map (spec_read_tot a) (file_fabs lv ids))).
+  { apply omap_all_map. intros fb Hfb. apply (Hall fb). apply Hsub. exact Hfb. }
+  split; [exact Hom|]. split.
+  - apply read_bfile_spec; [|exact Hom].
+    apply (forallb_sub fab_ok (lv_fabs lv)); [apply wf_level_fabs_ok; exact Hwf|exact Hsub].
+  - pose proof (wf_level_ids_nonempty lv Hwf n ids Hin) as Hne.
+    unfold file_fabs. destruct ids; [congruence|]. cbn [map]. discriminate.
+Qed.
+
+Theorem per_file_reads : forall lv a rs name ids,
+  wf_level lv = true -> In (name, ids) (lv_files lv) ->
+  omap_all (fun fb => spec_read fb a) (lv_fabs lv) = Some rs ->
+  exists rf, omap_all (fun fb => spec_read fb a) (file_fabs lv ids) = Some rf
+             /\ read_bfile (encode_file (file_fabs lv ids)) a = rf /\ rf <> [].
+Proof.
+  intros lv a rs name ids Hwf Hin Hrs.
+  exists (map (spec_read_tot a) (file_fabs lv ids)).
+  apply (per_file_reads_tot lv a rs name ids Hwf Hin Hrs).
+Qed.
+
+Lemma Permutation_concat_map {A B} (f : A -> list B) (l l' : list A) :
+  Permutation l l' -> Permutation (concat (map f l)) (concat (map f l')).
+Proof.
+  intros P. rewrite <- !flat_map_concat_map. apply Permutation_flat_map. exact P.
+Qed.
+
+Theorem stream_iter_all_perm : forall lv cells a rs,
+  wf_level lv = true -> lv_cells lv = Some cells -> lv_fabs lv <> [] ->
+  omap_all (fun fb => spec_read fb a) (lv_fabs lv) = Some rs ->
+  exists out, stream_iter_all (lv_disk lv) cells a = Some out /\ Permutation out rs.
+Proof.
+  intros lv cells a rs Hwf Hcells Hne Hrs.
+  pose proof (level_names_perm lv cells Hwf Hcells) as Pn.
+  apply Permutation_map_inv in Pn. destruct Pn as (files' & Hnames & Pf).
+  (* Pf : Permutation (lv_files lv) files' *)
+  assert (Hin' : forall nf, In nf files' -> In (fst nf, snd nf) (lv_files lv)).
+  { intros [n ids] H. cbn [fst snd]. apply (Permutation_in _ (Permutation_sym Pf)). exact H. }
+  set (F := fun nf : bytes * list nat => file_fabs lv (snd nf)).
+  set (g := spec_read_tot a).
+  unfold stream_iter_all. cbv zeta. rewrite Hnames.
+  assert (Hlook : omap_all (fun n => lookup n (lv_disk lv)) (map fst files')
+                  = Some (map (fun nf => encode_file (F nf)) files')).
+  { clear Hnames Pf. induction files' as [|nf fl IH]; [reflexivity|].
+    cbn [map omap_all].
+    rewrite (lookup_lv_disk lv (fst nf) (snd nf) Hwf) by (apply Hin'; left; reflexivity).
+    cbn [obind]. rewrite IH by (intros x Hx; apply Hin'; right; exact Hx).
+    reflexivity. }
+  rewrite Hlook. cbn [obind]. rewrite map_map.
+  assert (Hread : map (fun nf => read_bfile (encode_file (F nf)) a) files'
+                  = map (fun nf => map g (F nf)) files').
+  { apply map_ext_in. intros nf Hnf.
+    apply (per_file_reads_tot lv a rs (fst nf) (snd nf) Hwf (Hin' nf Hnf) Hrs). }
+  rewrite Hread.
+  assert (Hfne : files' <> []).
+  { intros ->. apply Permutation_sym, Permutation_nil in Pf.
+    pose proof (files_partition lv Hwf) as P. rewrite Pf in P. cbn [map concat] in P.
+    apply Permutation_nil in P. congruence. }
+  destruct (map (fun nf => map g (F nf)) files') as [|l0 ls0] eqn:Epf.
+  { destruct files'; [congruence|discriminate]. }
+  rewrite <- Epf. eexists. split; [reflexivity|].
+  rewrite chain_iter_concat.
+  2:{ apply Forall_forall. intros l Hl. apply in_map_iff in Hl. destruct Hl as (nf & <- & Hnf).
+      apply (per_file_reads_tot lv a rs (fst nf) (snd nf) Hwf (Hin' nf Hnf) Hrs). }
+  destruct (omap_all_tot _ dummy_arr _ _ Hrs) as [-> _].
+  change (fun x => match spec_read x a with Some y => y | None => dummy_arr end) with g.
+  rewrite <- (map_map F (map g)), <- concat_map.
+  apply Permutation_map.
+  apply (Permutation_trans (Permutation_concat_map F _ _ (Permutation_sym Pf))).
+  apply files_partition. exact Hwf.
+Qed.
+
+Print Assumptions read_bfile_spec.
+Print Assumptions stream_iter_all_perm.
+Print Assumptions np_unique_NoDup.
